@@ -53,7 +53,12 @@ Close == /\ last \in {"atom", "open"} /\ nest # <<>>
 GroupAtoms == { <<"(", "b", ",", "c", ")">>, <<"[", "0", "]">>, <<"(", "x", " ", "=", " ", "1", ")">>, <<"<", "A", ":", "B", ">">> }
 AddGroup(g) == /\ last = "atom" /\ steps < MaxSteps
                /\ text' = text \o g /\ last' = "atom" /\ steps' = steps + 1 /\ UNCHANGED nest
-Next == (\E a \in Atoms : AddAtom(a)) \/ (\E d \in Delims : AddDelim(d)) \/ (\E i \in 1..4 : Open(i)) \/ Close \/ (\E g \in GroupAtoms : AddGroup(g))
+\* whole groups that stand alone behind a delimiter (also the blank), an opener or at the start, with delimiters inside:
+\* a <b,c>   x = {k: v}   f((b c), d)
+StandaloneGroups == { <<"<", "b", ",", "c", ">">>, <<"{", "k", ":", " ", "v", "}">> }
+AddStandalone(g) == /\ last \in {"start", "delim", "open"} /\ steps < MaxSteps
+                    /\ text' = text \o g /\ last' = "atom" /\ steps' = steps + 1 /\ UNCHANGED nest
+Next == (\E g \in StandaloneGroups : AddStandalone(g)) \/ (\E a \in Atoms : AddAtom(a)) \/ (\E d \in Delims : AddDelim(d)) \/ (\E i \in 1..4 : Open(i)) \/ Close \/ (\E g \in GroupAtoms : AddGroup(g))
 Complete == nest = <<>> /\ last = "atom"
 
 -----------------------------------------------------------------------------
